@@ -13,6 +13,10 @@ STATUS = ["Unconfirmed", "Unspent", "Locked", "Spent", "Reverted"]
 TTYPE = ["TCoinbase", "TReceived", "TSent", "TReceivedCancelled", "TSentCancelled", "TReverted"]
 
 KNOWN = [{
+    "id": "C16-ranged-drop-strands-inputs",
+    "match": lambda f: "[ranged-drop-strands-inputs]" in f["what"],
+    "text": "a delete_unconfirmed scan that starts above the blocks of a pending send's inputs deletes the send's Unconfirmed change and cancels its entry but leaves the inputs Locked (they lie outside the scanned range); cancel_tx refuses the cancelled entry and the same scan repeated changes nothing",
+}, {
     "id": "C16-unconfirmed-on-chain",
     "match": lambda f: "[unconfirmed-on-chain-deleted]" in f["what"] or "[unconfirmed-on-chain-kept]" in f["what"],
     "text": "scan does not confirm a record that is Unconfirmed although its commitment is in the UTXO set: without delete_unconfirmed it stays Unconfirmed, with delete_unconfirmed it is DELETED (and its log entry cancelled) and only a second scan restores it — the first scan does not reach the chain's truth and the second one changes the wallet",
@@ -75,6 +79,12 @@ def proj(snap, slates=None):
     return [p[0], sorted(p[1]), sorted(p[2])]
 
 
+def scanned(r):
+    """the seed's chain outputs inside the range the scan looks at (blocks from its start height on)"""
+    st = r.get("start") or 0
+    return [d for d in r["chain"] if d["height"] >= st]
+
+
 def oracle(rows):
     fails = []
     for r in rows:
@@ -83,7 +93,7 @@ def oracle(rows):
         if r["rc"] != [0] or r["rc2"] != [0]:
             fail("scan failed: %s %s" % (r["rc"], r["rc2"]))
             continue
-        chain = {(d["key"][0], d["key"][1], int(d["value"])): d for d in r["chain"]}
+        chain = {(d["key"][0], d["key"][1], int(d["value"])): d for d in scanned(r)}
         if r["kind"] == "restore":
             outs = r["restored"]["outputs"]
             seen = set()
@@ -154,9 +164,19 @@ def oracle(rows):
                 for o in after["outputs"]:
                     if o["status"] == 0:
                         fail("delete_unconfirmed scan left unconfirmed output %s" % ((o["acct"], o["child"]),))
+                # a pending transaction that was dropped holds nothing any more
+                dropped = {(t["parent"], t["id"]) for t in after["txs"] if t["type"] in (3, 4)}
+                was = {(t["parent"], t["id"]): t["type"] for t in r["before"]["txs"]}
+                for o in after["outputs"]:
+                    if o["status"] == 2 and (o["root"], o["tx"]) in dropped and was.get((o["root"], o["tx"])) == 2:
+                        below = r.get("start") and o["height"] < r["start"]
+                        fail("the scan dropped pending transaction %s but its input %s stays Locked (height %d, scan from %s)%s"
+                             % ((o["root"], o["tx"]), (o["acct"], o["child"]), o["height"], r.get("start"),
+                                " [ranged-drop-strands-inputs]" if below else ""))
             act = after["active"]
+            utxo = {(d["key"][0], d["key"][1], int(d["value"])) for d in r["chain"]}
             for o in after["outputs"]:
-                if o["root"] == act and o["status"] == 1 and (o["acct"], o["child"], int(o["value"])) not in chain:
+                if o["root"] == act and o["status"] == 1 and (o["acct"], o["child"], int(o["value"])) not in utxo:
                     fail("active account still records %s Unspent though it is not in the UTXO set" % ((o["acct"], o["child"]),))
             sl = {}
             if L.canon(L.proj_from_snap(norm_snap(after, sl))) != L.canon(L.proj_from_snap(norm_snap(r["after2"], sl))):
@@ -199,7 +219,7 @@ def run(tier, replay):
             pres = cL(["(%s, %s, %s)" % (kid(x[0], x[1]), cOpt(x[2], cN), cN(x[3])) for x in v["presence"]])
             km = cL([cN(x[1]) for x in v["kernel_missing"] if x[0] == act])
             terms.append("(refresh %s %s true %s %s %s, %s, %s)" % (wt, cN(act), cN(v["tip"]), pres, km,
-                                                                  chain_term(r["chain"]), cB(r["del"])))
+                                                                  chain_term(scanned(r)), cB(r["del"])))
             expect.append(proj(r["after"], slates))
     model = vlib.coq_eval(PROP, "From GW Require Import Scan.", "run_scan", terms, shard=4)
 
@@ -234,8 +254,13 @@ def run(tier, replay):
     kinds = collections.Counter()
     for r in rows:
         kinds[r["kind"] + ":batch%s" % r["batch"]] += 1
+        if r["kind"] == "repair":
+            kinds["start:%s" % ("first-block" if not r.get("start") or r["start"] <= 1 else "inside")] += 1
+            kinds["pending-send:%s" % bool(r.get("pending"))] += 1
+        else:
+            kinds["pre-created-label:%s" % r.get("pre_label")] += 1
         for i in r.get("injected", []):
-            kinds["inject:%s" % ["delete", "spent", "locked", "unconfirmed", "unspent"][i[3]]] += 1
+            kinds["inject:%s" % ["delete", "spent", "locked", "unconfirmed", "unspent", "spent-other-height", "locked-other-height"][i[3]]] += 1
     cov = dict(proof)
     cov.update({
         "evaluations": len(rows),
